@@ -2,10 +2,11 @@ package s0302
 
 type G1 struct {
 	F2x0 []uint32
+	F2x1 uint64
 }
 
 type T struct {
-	F0 *int32
-	F1 int64
-	F2 G1
+	F0 int32
+	F1 *int64
+	F2 *G1
 }
